@@ -5,11 +5,11 @@ W="$1"; K="$2"; M="$W/_mut/$K"
 cd "$W" || exit 2
 git checkout -q -- . 2>/dev/null
 make -j8 >/dev/null 2>&1
-sh "$M/demo.sh" "$W" >/tmp/demo_clean.$$ 2>&1; C=$?
+bash "$M/demo.sh" "$W" >/tmp/demo_clean.$$ 2>&1; C=$?
 git apply "$M/patch.diff" || { echo "PATCH-DOES-NOT-APPLY"; exit 2; }
 if make -j8 >/tmp/build.$$ 2>&1; then B=ok; else B=FAIL; fi
 T=$(make check 2>&1 | grep -E "^(PASS|FAIL|ERROR)" | cut -d: -f1 | sort | uniq -c | tr -s ' \n' ' ')
-sh "$M/demo.sh" "$W" >/tmp/demo_mut.$$ 2>&1; D=$?
+bash "$M/demo.sh" "$W" >/tmp/demo_mut.$$ 2>&1; D=$?
 git checkout -q -- .
 make -j8 >/dev/null 2>&1
 echo "build=$B tests=[$T] demo_clean_exit=$C demo_mutated_exit=$D"
